@@ -41,7 +41,8 @@ def generate(ctx):
             ref_row, _ = anno.make_msa(rng, genome, 1, with_insertions=False)
             rows = [gen.mutate(rng, genome, p_sub=rng.choice([0.25, 0.4]), p_amb=0.02, p_gap=0.0, p_lower=0.0).replace("?", "N") for _ in range(rng.randint(1, 3))]
         else:
-            genome, feats, ref_row, rows = vcommon.random_setup(rng, allow_unnamed=(suffix == "gff"), mod3_segments=True,
+            genome, feats, ref_row, rows = vcommon.random_setup(rng, allow_unnamed=(suffix == "gff"), mod3_segments=(cid % 3 != 0),
+                                                                codon_starts=(cid % 3 == 0),               # features incomplete at their 5' end: /codon_start 2-3, GFF3 phase 1-2
                                                                 rotate=0.3 if suffix == "gb" else 0.0)     # origin-spanning joins: GenBank only
         if not feats:
             continue
